@@ -97,7 +97,7 @@ class Ctx:
         os.unlink(base + ".out")
         self.evaluations += len(events)
         self.lanes_used.add(lane)
-        if os.environ.get("VERIF_FUZZ_RESULTS") and os.environ.get("VERIF_REPO"):
+        if os.environ.get("VERIF_FUZZ_RESULTS") and os.environ.get("VERIF_REPO") and lane == "P":
             # robustness test of the validators (tools/fuzzverdicts.sh, never for /repo itself): every 5th recorded result is
             # replaced by wild values; the verdict operators must reject them, not overflow or crash
             import random as _r
@@ -105,14 +105,19 @@ class Ctx:
             wild = [2147483647, -2147483647, 1 << 30, -(1 << 30), 123456789, 0, -1, 65536, 99999999]
 
             def mangle(x):
-                if isinstance(x, bool):
-                    return x
-                if isinstance(x, int):
-                    return rr.choice(wild)
+                # only what the encoders can emit: any 32-bit integer under the tags "i" and "q" (n), any table scalars
                 if isinstance(x, list):
                     return [mangle(y) for y in x]
                 if isinstance(x, dict):
-                    return {k: (y if k in ("t", "a") else mangle(y)) for k, y in x.items()}
+                    if x.get("t") == "i":
+                        return dict(x, v=rr.choice(wild))
+                    if x.get("t") == "q":
+                        return dict(x, n=rr.choice(wild))
+                    if x.get("t") == "obs":
+                        return {k: (y if k == "t" else (rr.choice(wild[:2] + [2000000000, -2000000000]) if isinstance(y, int) else y)) for k, y in x.items()}
+                    if "live" in x and "tpos" in x:
+                        return dict(x, live=rr.choice([0, 499999999, -1, 123]), tpos=rr.choice([0, 499999999, 77]))
+                    return {k: mangle(y) for k, y in x.items()}
                 return x
             for e in events[::5]:
                 e["res"] = mangle(e["res"])
